@@ -561,6 +561,11 @@ let run_x86 (lines : string list) : unit =
             let v = id_of ("u:" ^ next k) in
             let w', o = run_op_x !w (OClone (u, v)) in
             w := w'; fmt_obs fmt_regs_x86 o
+          | "clonefrom" ->                                   (* Clone::clone_from: dst becomes a clone of src *)
+            let v = id_of ("u:" ^ next k) in
+            let u = id_of ("u:" ^ next k) in
+            let w', o = run_op_x !w (OClone (u, v)) in
+            w := w'; fmt_obs fmt_regs_x86 o
           | "newcache" ->
             let w', o = run_op_x !w (ONewCache (id_of ("c:" ^ next k))) in
             w := w'; fmt_obs fmt_regs_x86 o
@@ -721,6 +726,11 @@ let run_a64 (lines : string list) : unit =
           | "clone" ->
             let u = id_of ("u:" ^ next k) in
             let v = id_of ("u:" ^ next k) in
+            let w', o = run_op_a !w (OClone (u, v)) in
+            w := w'; fmt_obs fmt_regs_a64 o
+          | "clonefrom" ->                                   (* Clone::clone_from: dst becomes a clone of src *)
+            let v = id_of ("u:" ^ next k) in
+            let u = id_of ("u:" ^ next k) in
             let w', o = run_op_a !w (OClone (u, v)) in
             w := w'; fmt_obs fmt_regs_a64 o
           | "newcache" ->
